@@ -42,6 +42,9 @@ def generate(seed, tier):
     case = {"mode": "undirected", "seed": seed, "q": q, "spec": spec,
             "label": rng.choice(["edge", "stub"]), "detailed": rng.random() < 0.6,
             "K": rng.randint(1, 40 if tier == "quick" else 400)}
+    if rng.random() < 0.3:
+        # a weighted input: the model is about the hyperedges, whatever their weights
+        case["weights"] = [rng.choice([1, 2, 3, 0.5, 2.5, 7]) for _ in spec["edges"]]
     sizes = sorted({len(e) for e in spec["edges"]})
     x = rng.random()
     if x < 0.25:
@@ -110,7 +113,10 @@ def _check_undirected(case, h_in, h_out, k):
 def _run_cm(case, k):
     from hypergraphx.generation.configuration_model import configuration_model
 
-    h_in = _gen.build_hypergraph(case["spec"])
+    if case.get("weights"):
+        h_in = _gen.build_hypergraph(case["spec"], weights=case["weights"], weighted=True)
+    else:
+        h_in = _gen.build_hypergraph(case["spec"])
     fac = Facade(case["seed"], q=case["q"])
     kw = {"n_steps": k, "label": case["label"], "detailed": case["detailed"]}
     if "size" in case:
